@@ -312,8 +312,8 @@ def check(run):
             run.analysed_fn(fq)
             # LOSSCALL
             for ev, ctx in walk(s.events):
-                if ctx.inl and any(i.qual.split(".")[0] != cls.name for i in ctx.inl):
-                    continue
+                if ctx.inl and any(i.cls is not None and i.cls not in prog.mro(cls) for i in ctx.inl):
+                    continue            # code of another class; helpers, hooks and wrappers of the class itself count
                 if is_call_to(ev, lf) and ev.method is None:
                     n_loss += 1
                     good = len(ev.args) == 2 and not ev.kwargs
